@@ -1008,6 +1008,8 @@ def gen_invocation(b):
             b.burst([], adv=det["timeout"]["i"])       # the invocation's own timeout
         else:
             b.burst([hret("ok")], adv=det["timeout"]["i"], prearm=rng.random() < 0.5)
+    elif shape < 0.95:
+        b.burst([inv()])                               # the handler is still running when the client closes
     else:
         b.burst([b.msg("invocation", req={"lit": iid}, reg=777, tag=b.tag())])   # unknown registration
 
@@ -1299,6 +1301,14 @@ def monitor_c17(sched, res):
     crash oracles: liveness probes planted by the script must be answered."""
     bad = []
     T = Trace(sched, res)
+    joined = [o for o in res.get("obs", []) if o["e"] == "join"]
+    if sched.get("expect_join"):
+        got = joined[0]["r"] if joined else "?"
+        if got != sched["expect_join"]:
+            bad.append(("C17 NewClient %s on a %s answer to HELLO" % ("succeeded" if got == "ok" else "failed", sched["cfg"]["join"]["reply"]),
+                        "expected %s, got %s (%s)" % (sched["expect_join"], got, joined[0].get("txt") if joined else "")))
+    if joined and joined[0]["r"] == "error":
+        return bad     # no client: the bursts were not run
     # Done is signalled in the very burst in which the router says GOODBYE /
     # ABORT or the transport ends
     done_b = None
@@ -1546,7 +1556,7 @@ def gen_c17(rng, tier, keys):
             s2["bursts"][pos]["labels"] = s2["bursts"][pos]["labels"] + [lab]
             scripts.append(s2)
     # F5: timing -- replies exactly at the response timeout / at the cancellation timeout / at the context deadline
-    reps = 6 if tier == "quick" else 40
+    reps = 6 if tier == "quick" else 120
     for rep in range(reps):
         for kind in ("subscribe", "register", "publish", "unsubscribe", "unregister"):
             for prearm in (True, False):
@@ -1617,6 +1627,26 @@ def gen_c17(rng, tier, keys):
     h.hostile([{"k": "chunk", "o": o, "final": False}])
     b.closed = True
     scripts.append(h.finish(probes=False, close=False))
+    # F7: the join itself -- whatever answers HELLO, NewClient returns (a client or an
+    # error) and leaves nothing behind
+    roles = {"roles": V("dict", d={"broker": V("dict", d={}), "dealer": V("dict", d={})})}
+    joins = [("abort", {}), ("abort", {"message": V("int", i=5)}), ("goodbye", {}), ("challenge", {}), ("result", {}),
+             ("close", {}), ("none", {}), ("nil_details", {}), ("welcome", {}), ("welcome", {"roles": V("int", i=5)}),
+             ("welcome", {"roles": V("dict", d={})}), ("welcome", {"roles": V("dict", d={"dealer": V("int", i=1)})}),
+             ("welcome", {"roles": V("dict", d={"dealer": V("dict", d={"features": V("list", l=[])})})}),
+             ("welcome", {"roles": V("map", d={"broker": V("map", d={"features": V("map", d={"x": V("str", s="y")})})})}),
+             ("welcome", roles)]
+    for n, (reply, det) in enumerate(joins):
+        has_role = reply == "welcome" and det.get("roles", {}).get("ty") in ("dict", "map") and bool(det["roles"].get("d"))
+        sj = {"id": "join:%d:%s" % (n, reply), "family": "join", "probes": [], "expect_join": "ok" if has_role else "error",
+              "cfg": {"rt_ms": RT, "ppt": False, "cancel_mode": "", "join": {"reply": reply, "details": det}},
+              "bursts": []}
+        bj = Builder(random.Random(0), sj["id"], sj["cfg"])
+        bj.s = sj
+        bj.burst([bj.api("subscribe", 1)])
+        bj.burst([bj.reply_ok(1)])
+        finish(bj)
+        scripts.append(sj)
     # many messages at once (queue pressure), then the probes
     h = Hostile("dir:burst-of-64", "directed")
     h.hostile([h.b.msg("event", sub=h.sub, pub=7000 + i, tag=i + 1) for i in range(60)])
